@@ -14,12 +14,24 @@
 (*            = "exec_module" : the tag override stays active while the      *)
 (*                              hooked module's body runs, i.e. also for the *)
 (*                              modules it imports (defect D4; TLC refutes)  *)
+(*            = "compile_window": the typechecker package is imported while  *)
+(*                              the hooked module is being COMPILED (inside  *)
+(*                              the tag override) instead of when its first  *)
+(*                              decorated function is defined (TLC refutes)  *)
+(*            = "skip_when_disabled": with JAXTYPING_DISABLE set the hook    *)
+(*                              compiles the module without instrumentation  *)
+(*                              but still caches it under its tag (refuted)  *)
+(* The typechecker is named by a string; its package is imported when the    *)
+(* first decorated function of a hooked module is defined, and may itself    *)
+(* import project modules (CheckerImports).  A run may have checking         *)
+(* switched off (disabled): the code is instrumented all the same - the      *)
+(* switch is read at call time - so what is cached does not depend on it.    *)
 (* Fresh: every executed code object is what the current source and the      *)
 (* current hook configuration call for.                                      *)
 (***************************************************************************)
 EXTENDS Integers, Sequences, FiniteSets, TLC, Json
 
-CONSTANTS Modules, Imports, Checkers, PatchScope, MaxRuns, MaxEdits
+CONSTANTS Modules, Imports, Checkers, PatchScope, MaxRuns, MaxEdits, CheckerImports
 
 Plain == "plain"
 NoCode == [ver |-> -1, instr |-> "none"]
@@ -27,8 +39,9 @@ Tags == {"std"} \cup Checkers
 
 \* nowrite : this run has sys.dont_write_bytecode set (caches are still READ)
 \* leak    : a tag override left behind in this process ("none" in every correct variant)
-VARIABLES src, cache, run, edits, phase, hooked, checker, loaded, stack, order, runs, nowrite, leak
-vars == <<src, cache, run, edits, phase, hooked, checker, loaded, stack, order, runs, nowrite, leak>>
+\* disabled: this run has JAXTYPING_DISABLE set
+VARIABLES src, cache, run, edits, phase, hooked, checker, loaded, stack, order, runs, nowrite, leak, disabled
+vars == <<src, cache, run, edits, phase, hooked, checker, loaded, stack, order, runs, nowrite, leak, disabled>>
 Broken == "X"     \* a module whose source does not compile; importing it fails (and the program carries on)
 
 Init == /\ src = [m \in Modules |-> 0]
@@ -37,8 +50,9 @@ Init == /\ src = [m \in Modules |-> 0]
         /\ hooked = {} /\ checker = "none"
         /\ loaded = [m \in Modules |-> NoCode]
         /\ stack = << >> /\ order = << >> /\ runs = << >> /\ nowrite = FALSE /\ leak = "none"
+        /\ disabled = FALSE
 
-StartRun(h, c, nw) == /\ phase = "idle" /\ run < MaxRuns
+StartRun(h, c, nw, dis) == /\ phase = "idle" /\ run < MaxRuns /\ disabled' = dis
                   /\ run' = run + 1 /\ phase' = "running"
                   /\ hooked' = h /\ checker' = c /\ nowrite' = nw /\ leak' = "none"
                   /\ loaded' = [m \in Modules |-> NoCode] /\ order' = << >>
@@ -47,60 +61,69 @@ StartRun(h, c, nw) == /\ phase = "idle" /\ run < MaxRuns
 Edit(m) == /\ phase = "idle" /\ edits < MaxEdits
            /\ src' = [src EXCEPT ![m] = @ + 1] /\ edits' = edits + 1
            /\ runs' = Append(runs, [kind |-> "edit", mod |-> m])
-           /\ UNCHANGED <<cache, run, phase, hooked, checker, loaded, stack, order, nowrite, leak>>
+           /\ UNCHANGED <<cache, run, phase, hooked, checker, loaded, stack, order, nowrite, leak, disabled>>
 
 \* fetching the code of module n while `patch` is the tag override left active by an enclosing hooked module
 Fetch(n, patch) ==
   LET isHooked == n \in hooked /\ checker # "none"
-      want     == [ver |-> src[n], instr |-> IF isHooked THEN checker ELSE Plain]
+      want     == [ver |-> src[n], instr |-> IF isHooked /\ ~(PatchScope = "skip_when_disabled" /\ disabled)
+                                             THEN checker ELSE Plain]
       tag      == IF isHooked THEN (IF PatchScope = "skip_when_nowrite" /\ nowrite THEN "std" ELSE checker)
-                  ELSE IF PatchScope = "exec_module" /\ patch # "none" THEN patch
+                  ELSE IF PatchScope \in {"exec_module", "compile_window"} /\ patch # "none" THEN patch
                   ELSE IF leak # "none" THEN leak
                   ELSE "std"
       hit      == cache[n][tag].ver = src[n]
       code     == IF hit THEN cache[n][tag] ELSE want
       newpatch == IF PatchScope = "exec_module" THEN (IF isHooked THEN checker ELSE patch) ELSE "none"
-  IN [code |-> code, tag |-> tag, hit |-> hit, want |-> want, patch |-> newpatch]
+      \* the imports performed by n's body, in order: its own, then (first decorated def) the typechecker package's;
+      \* in the "compile_window" variant the latter happen first, on a cache miss, inside the tag override
+      ck       == IF isHooked THEN CheckerImports[checker] ELSE << >>
+      early    == IF PatchScope = "compile_window" /\ isHooked /\ ~hit THEN ck ELSE << >>
+  IN [code |-> code, tag |-> tag, hit |-> hit, want |-> want, patch |-> newpatch,
+      todo |-> early \o Imports[n] \o ck, win |-> Len(early), wtag |-> checker]
 
 TopImport(m) ==
   /\ phase = "running" /\ stack = << >> /\ loaded[m] = NoCode
   /\ LET f == Fetch(m, "none") IN
      /\ loaded' = [loaded EXCEPT ![m] = f.code]
      /\ cache' = IF f.hit \/ nowrite THEN cache ELSE [cache EXCEPT ![m][f.tag] = f.want]
-     /\ stack' = <<[m |-> m, todo |-> Imports[m], patch |-> f.patch]>>
+     /\ stack' = <<[m |-> m, todo |-> f.todo, patch |-> f.patch, win |-> f.win, wtag |-> f.wtag]>>
   /\ order' = Append(order, m)
-  /\ UNCHANGED <<src, run, edits, phase, hooked, checker, runs, nowrite, leak>>
+  /\ UNCHANGED <<src, run, edits, phase, hooked, checker, runs, nowrite, leak, disabled>>
 
 \* `import X` fails to compile; the program catches the error and carries on.  Nothing may change.
 ImportBroken ==
   /\ phase = "running" /\ stack = << >> /\ Broken \notin {order[i] : i \in DOMAIN order}
   /\ order' = Append(order, Broken)
   /\ leak' = IF PatchScope = "leak_on_error" /\ Broken \in hooked /\ checker # "none" THEN checker ELSE leak
-  /\ UNCHANGED <<src, cache, run, edits, phase, hooked, checker, loaded, stack, runs, nowrite>>
+  /\ UNCHANGED <<src, cache, run, edits, phase, hooked, checker, loaded, stack, runs, nowrite, disabled>>
 
 Step == /\ phase = "running" /\ stack # << >>
         /\ LET top == stack[Len(stack)] IN
            IF top.todo = << >> THEN
                 /\ stack' = SubSeq(stack, 1, Len(stack) - 1)
-                /\ UNCHANGED <<src, cache, run, edits, phase, hooked, checker, loaded, order, runs, nowrite, leak>>
+                /\ UNCHANGED <<src, cache, run, edits, phase, hooked, checker, loaded, order, runs, nowrite, leak, disabled>>
            ELSE LET n == Head(top.todo)
-                    popped == [stack EXCEPT ![Len(stack)].todo = Tail(top.todo)] IN
+                    popped == [stack EXCEPT ![Len(stack)].todo = Tail(top.todo),
+                                            ![Len(stack)].win = IF top.win > 0 THEN top.win - 1 ELSE 0] IN
                 IF loaded[n] # NoCode THEN
                      /\ stack' = popped
-                     /\ UNCHANGED <<src, cache, run, edits, phase, hooked, checker, loaded, order, runs, nowrite, leak>>
-                ELSE LET f == Fetch(n, top.patch) IN
-                     /\ loaded' = [loaded EXCEPT ![n] = f.code]
-                     /\ cache' = IF f.hit \/ nowrite THEN cache ELSE [cache EXCEPT ![n][f.tag] = f.want]
-                     /\ stack' = Append(popped, [m |-> n, todo |-> Imports[n], patch |-> f.patch])
-                     /\ UNCHANGED <<src, run, edits, phase, hooked, checker, order, runs, nowrite, leak>>
+                     /\ UNCHANGED <<src, cache, run, edits, phase, hooked, checker, loaded, order, runs, nowrite, leak, disabled>>
+                ELSE LET f == Fetch(n, IF top.win > 0 THEN top.wtag ELSE top.patch)     \* win > 0 only in "compile_window"
+                         g == f IN
+                     /\ loaded' = [loaded EXCEPT ![n] = g.code]
+                     /\ cache' = IF g.hit \/ nowrite THEN cache ELSE [cache EXCEPT ![n][g.tag] = g.want]
+                     /\ stack' = Append(popped, [m |-> n, todo |-> g.todo, patch |-> g.patch, win |-> g.win, wtag |-> g.wtag])
+                     /\ UNCHANGED <<src, run, edits, phase, hooked, checker, order, runs, nowrite, leak, disabled>>
 
 EndRun == /\ phase = "running" /\ stack = << >> /\ order # << >>
           /\ phase' = "idle"
           /\ runs' = Append(runs, [kind |-> "run", hooked |-> hooked, checker |-> checker, order |-> order,
-                                   nowrite |-> nowrite, result |-> loaded])
-          /\ UNCHANGED <<src, cache, run, edits, hooked, checker, loaded, stack, order, nowrite, leak>>
+                                   nowrite |-> nowrite, disabled |-> disabled, result |-> loaded])
+          /\ UNCHANGED <<src, cache, run, edits, hooked, checker, loaded, stack, order, nowrite, leak, disabled>>
 
-Next == \/ \E h \in SUBSET (Modules \cup {Broken}), c \in Checkers \cup {"none"}, nw \in BOOLEAN : StartRun(h, c, nw)
+Next == \/ \E h \in SUBSET (Modules \cup {Broken}), c \in Checkers \cup {"none"}, nw \in BOOLEAN, dis \in BOOLEAN :
+                StartRun(h, c, nw, dis)
         \/ \E m \in Modules : Edit(m) \/ TopImport(m)
         \/ ImportBroken \/ Step \/ EndRun
 Spec == Init /\ [][Next]_vars
@@ -110,8 +133,10 @@ Fresh == phase = "running" => \A m \in Modules : loaded[m] # NoCode =>
 \* a cached code object is never stored under a tag that does not describe it
 CacheTagged == \A m \in Modules, t \in Tags : cache[m][t] # NoCode =>
                   cache[m][t].instr = (IF t = "std" THEN Plain ELSE t)
-View == <<src, cache, run, edits, phase, hooked, checker, loaded, stack, order, nowrite, leak>>
+View == <<src, cache, run, edits, phase, hooked, checker, loaded, stack, order, nowrite, leak, disabled>>
 Emit == IF phase = "idle" /\ run = MaxRuns THEN PrintT(<<"HIST", ToJson(runs)>>) ELSE TRUE
+\* the package of typechecker "c2" imports the project module B when it is first imported
+CkImpB == [c \in Checkers |-> IF c = "c2" THEN <<"B">> ELSE << >>]
 ImportsAB == [m \in Modules |-> IF m = "A" THEN <<"B">> ELSE << >>]
 ImportsABC == [m \in Modules |-> IF m = "A" THEN <<"B">> ELSE IF m = "C" THEN <<"A">> ELSE << >>]
 =============================================================================
